@@ -22,4 +22,49 @@ theorem tables_ok' :
     YEAR_DELTAS.length = 401 ∧ (∀ i < 401, YEAR_DELTAS.getD i 0 = leapsBefore i) :=
   ⟨table_y2f.1, table_y2f.2, table_mdl.1, table_mdl.2, table_ol.1, table_ol.2, table_yd.1, table_yd.2⟩
 
+
+theorem isLeap_iff (y : Int) : isLeap y = true ↔ (y % 4 = 0 ∧ (y % 100 ≠ 0 ∨ y % 400 = 0)) := by
+  unfold isLeap
+  simp only [Bool.and_eq_true, Bool.or_eq_true, beq_iff_eq, bne_iff_ne, ne_eq]
+
+theorem isLeap_mod400 (y : Int) : isLeap (y % 400) = isLeap y := by
+  have h1 := isLeap_iff (y % 400)
+  have h2 := isLeap_iff y
+  have : (isLeap (y % 400) = true) ↔ (isLeap y = true) := by
+    rw [h1, h2]; omega
+  cases h : isLeap (y % 400) <;> cases h' : isLeap y <;> simp_all
+
+theorem dby_mod400 (y : Int) : daysBeforeYear y = daysBeforeYear (y % 400) + 146097 * (y / 400) := by
+  unfold daysBeforeYear
+  omega
+
+theorem flagsOf_mod400 (y : Int) : flagsOf (y % 400) = flagsOf y := by
+  unfold flagsOf
+  rw [isLeap_mod400, dby_mod400 y]
+  have : weekdayOf (daysBeforeYear (y % 400) + 146097 * (y / 400)) = weekdayOf (daysBeforeYear (y % 400)) := by
+    unfold weekdayOf; omega
+  rw [this]
+
+theorem from_year_spec (y : Int) : YearFlags.from_year y = flagsOf y := by
+  unfold YearFlags.from_year YearFlags.from_year_mod_400
+  have h0 : 0 ≤ y % 400 := Int.emod_nonneg _ (by decide)
+  have h1 : y % 400 < 400 := Int.emod_lt_of_pos _ (by decide)
+  have hlt : (y % 400).toNat < 400 := by omega
+  rw [table_y2f.2 _ hlt]
+  have : (((y % 400).toNat : Nat) : Int) = y % 400 := Int.toNat_of_nonneg h0
+  rw [this, flagsOf_mod400]
+
+theorem flagsOf_facts (y : Int) :
+    flagsOf y < 16 ∧ flagsOf y % 8 ≠ 0 ∧ flagsOf y / 8 = (if isLeap y then 0 else 1) ∧
+    ((flagsOf y % 8 : Nat) : Int) % 7 = weekdayOf (daysBeforeYear y) := by
+  unfold flagsOf weekdayOf
+  have h0 : 0 ≤ (daysBeforeYear y + 6) % 7 := Int.emod_nonneg _ (by decide)
+  have h1 : (daysBeforeYear y + 6) % 7 < 7 := Int.emod_lt_of_pos _ (by decide)
+  generalize (daysBeforeYear y + 6) % 7 = w at *
+  obtain ⟨k, hk⟩ := Int.eq_ofNat_of_zero_le h0
+  subst hk
+  simp only [Int.toNat_natCast]
+  have hk7 : k < 7 := by omega
+  cases isLeap y <;> (by_cases hz : k = 0 <;> simp [hz] <;> omega)
+
 end Chrono.Proofs
